@@ -299,6 +299,11 @@ func (e *Env) evalAppend(call *ast.CallExpr, st *State) Value {
 				Eq(Select(na, k), Select(oldR, k)))},
 			Pats: [][]*Term{{Select(na, k)}}})
 		c.heapSet(st, lf.Path, Store(mem, res.Base, na))
+		if lf.Path == c.memKey(types.Typ[types.Uint8]) {
+			// the abstract value of the old prefix is unchanged (instance of byte-sequence extensionality
+			// whose premise is the prefix axiom above)
+			st.assume(Eq(App("bytes$", SBytes, na, res.Off, s.Len), App("bytes$", SBytes, oldS, s.Off, s.Len)))
+		}
 	}
 	return res
 }
@@ -803,6 +808,16 @@ func (e *Env) applyContract(call *ast.CallExpr, st *State, cl callee, ct *Contra
 			post.B.vals["result"] = TV{v, rv.Type()}
 		}
 	}
+	// allocation only grows; everything returned is allocated
+	{
+		oldAlloc := c.heapGet(st, "$alloc", SInt)
+		na := c.freshVar("$alloc", SInt)
+		st.heap["$alloc"] = na
+		st.assume(IGe(na, oldAlloc))
+		for i, v := range rvals {
+			c.assumeAllocated(st, v, sig.Results().At(i).Type(), na)
+		}
+	}
 	for _, en := range ct.Ensures {
 		st.assume(post.evalBool(en.Expr))
 	}
@@ -816,6 +831,29 @@ func (e *Env) applyContract(call *ast.CallExpr, st *State, cl callee, ct *Contra
 		res = &TupleV{Vs: rvals}
 	}
 	return res
+}
+
+// assumeAllocated: refs and slice bases inside v are below the allocation counter.
+func (c *FCtx) assumeAllocated(st *State, v Value, t types.Type, alloc *Term) {
+	switch x := v.(type) {
+	case *SliceV:
+		st.assume(ILt(x.Base, alloc))
+	case *Term:
+		if x.Sort == SInt && t != nil {
+			switch t.Underlying().(type) {
+			case *types.Pointer, *types.Interface, *types.Map, *types.Chan:
+				st.assume(ILt(x, alloc))
+			}
+		}
+	case *StructV:
+		s := structOf(x.Typ)
+		if s == nil {
+			return
+		}
+		for i := 0; i < s.NumFields(); i++ {
+			c.assumeAllocated(st, x.F[s.Field(i).Name()], s.Field(i).Type(), alloc)
+		}
+	}
 }
 
 func (c *FCtx) callOrdinal(call *ast.CallExpr, cl callee) string {
